@@ -202,6 +202,20 @@ Pkt7 ==
          p |-> [t |-> "chunks", ack |-> a, token |-> t, rr |-> rr, nc |-> n, data |-> dd]] :
            a \in {256}, t \in {TKEN}, rr \in BOOLEAN, n \in {0, 1, 255}, dd \in RawS}
 
+\* payload lengths max-3 .. max for each content class (all-zero, two-symbol, incompressible for the
+\* codec), token present / absent: the body fills a packet (and the minimum scratch buffer) exactly
+BigData(n, cls) == CASE cls = 0 -> Rep(n, 0)
+                     [] cls = 1 -> [j \in 1..n |-> IF j % 3 = 0 THEN 1 ELSE 0]
+                     [] cls = 2 -> [j \in 1..n |-> j % 251]
+Big6 == {[k |-> "rt", v |-> 6, hascl |-> FALSE, cl |-> <<>>,
+          p |-> [t |-> "chunks", ack |-> 1023, token |-> t, rr |-> TRUE, nc |-> 255, data |-> BigData(1397 - Len(t) - dlt, cls)]] :
+            t \in {<<>>, <<9, 8, 7, 6>>}, dlt \in 0..3, cls \in 0..2}
+Big7 == {[k |-> "rt", v |-> 7, hascl |-> FALSE, cl |-> <<>>,
+          p |-> [t |-> "chunks", ack |-> 1023, token |-> <<9, 8, 7, 6>>, rr |-> TRUE, nc |-> 255, data |-> BigData(1393 - dlt, cls)]] :
+            dlt \in 0..3, cls \in 0..2}
+\* scratch sizes every exported packet is read with by the real reader
+RCaps(x) == IF x.p.t = "chunks" /\ Len(x.p.data) > 1000 THEN {1400, 1401, 2048} ELSE {1400, 2048}
+
 Z6(p) == IF p.t = "chunks" THEN ToyZ(W6!ZInput(p)) ELSE NoZ
 Z7(p) == IF p.t = "chunks" THEN ToyZ(W7!ZInput(p)) ELSE NoZ
 D6(b) == IF W6!NeedsDecompression(b) THEN ToyD(Drop(b, 3), CAP - 3) ELSE NoD
@@ -217,16 +231,24 @@ SameChunks(it, data, cl) ==
        /\ SubSeq(data, x.off + 1, x.off + x.len) = cl[j].data
 
 \* write -> read of an expressible value (C05); strict = also demand the absence of warnings
+\* The reader's result must not depend on the size of the scratch buffer as long as it has the
+\* documented minimum (MAX_PACKETSIZE): the round trip is demanded for the minimum and a generous one
+\* (a body of exactly the maximum length then fills the minimum buffer exactly).
+Caps == {MAX_PACKETSIZE, CAP}
+D6c(b, cp) == IF W6!NeedsDecompression(b) THEN ToyD(Drop(b, 3), cp - 3) ELSE NoD
+D7c(b, cp) == IF W7!NeedsDecompression(b) THEN ToyD(Drop(b, 7), cp - 7) ELSE NoD
 RoundTrip6(p) ==
   LET w == W6!WriteWith(p, Z6(p), CAP) IN
   /\ w.r = "ok" /\ Len(w.bytes) <= MAX_PACKETSIZE /\ IsBytes(w.bytes)
-  /\ LET r == W6!ReadWith(w.bytes, W6!TrueHint(p), D6(w.bytes)) IN
-     r.r = "ok" /\ r.p = p /\ r.w = W6!AllowedW(p)
+  /\ \A cp \in Caps :
+       LET r == W6!ReadWith(w.bytes, W6!TrueHint(p), D6c(w.bytes, cp)) IN
+       r.r = "ok" /\ r.p = p /\ r.w = W6!AllowedW(p)
 RoundTrip7(p) ==
   LET w == W7!WriteWith(p, Z7(p), CAP) IN
   /\ w.r = "ok" /\ Len(w.bytes) <= MAX_PACKETSIZE /\ IsBytes(w.bytes)
-  /\ LET r == W7!ReadWith(w.bytes, D7(w.bytes)) IN
-     r.r = "ok" /\ r.p = p /\ r.w = W7!AllowedW(p)
+  /\ \A cp \in Caps :
+       LET r == W7!ReadWith(w.bytes, D7c(w.bytes, cp)) IN
+       r.r = "ok" /\ r.p = p /\ r.w = W7!AllowedW(p)
 
 LawRT(x) ==
   IF x.v = 6
@@ -404,7 +426,8 @@ Init ==
     [] Tier = "utf" -> Mk([k |-> "utf"])
     [] OTHER -> \/ "hf" \in Fams /\ InitHF
                 \/ "hb" \in Fams /\ InitHB
-                \/ "rt" \in Fams /\ \E x \in Pkt6 \cup Pkt7 : Mk(x)
+                \/ "rt" \in Fams /\ \E x \in Pkt6 \cup Pkt7 \cup Big6 \cup Big7 : \E rc \in RCaps(x) :
+                                        Mk(x @@ [rcap |-> rc])
                 \/ "short6" \in Fams /\ InitShort6
                 \/ "short7" \in Fams /\ InitShort7
                 \/ "cor6" \in Fams /\ InitCor6
